@@ -879,7 +879,7 @@ def run(chk: common.Check):
     # runs of the real simulator, also replayed through the simulator model
     from harness.suites import _e2e_common as e2e
 
-    e2e.run_suite(chk, "C19", n_quick=100, n_thorough=1500, streams=("regular", "dag", "batch", "regular"))
+    e2e.run_suite(chk, "C19", n_quick=250, n_thorough=2500, streams=("regular", "dag", "batch", "regular"))
     e2e_rule = chk.rule
     chk.rule = (
         "cases = corpus of known findings + generated workload descriptions (1-4 profiles, 1-3 graphs of 1-6 nodes, every release "
